@@ -150,6 +150,9 @@ def gen_cases(col, kind, ents, tier):
                         else:
                             pred = (lambda e, v=v: e[col] != v)
                         yield ('%s %s %s' % (col, sp, lit), pred, cls)
+        if True:
+            pass
+        for v in vals:
             if len(v) >= 2 and "'" not in v:
                 g1, g2, g3 = v[0] + '*', '*' + v[-1], '?' + v[1:]
                 for g in (g1, g2, g3):
@@ -167,6 +170,16 @@ def gen_cases(col, kind, ents, tier):
                 for sp in RX + NRX:
                     neg = sp in NRX
                     yield ("%s %s '%s'" % (col, sp, rx), (lambda e, rx=rx, neg=neg: mt.regex_search(rx, e[col]) != neg), 'text-regex')
+        # quoted literals that spell a column or function in ANY letter case, incl. the internal display names
+        for lit in ('Name', 'NAME', 'Size', 'Path', 'Extension', 'Ext', 'Mode', 'Directory', 'Dir', 'Lower(Name)', 'lower(name)', 'Length(Name)',
+                    'Uid', 'Modified', 'IsDir', 'is_dir'):
+            for sp, neg in (('=', False), ('!=', True), ('===', False), ('!==', True), ('like', False), ('notlike', True)):
+                yield ("%s %s '%s'" % (col, sp, lit), (lambda e, lit=lit, neg=neg, sp=sp: ((e[col].lower() == lit.lower()) if 'like' in sp else (e[col] == lit)) != neg),
+                       'text-quoted-keyword')
+        if col == 'name':
+            for lit in ('Name', 'Lower(Name)', 'lower(name)', 'name'):
+                yield ("lower(name) = '%s'" % lit, (lambda e, lit=lit: e['name'].lower() == lit), 'text-quoted-keyword')
+                yield ("length(name) = '%s'" % 4, (lambda e: len(e['name']) == 4), 'text-quoted-keyword')
     elif kind == 'bool':
         for lit, b in BOOL_LITS:
             for sp in EQ + NE:
@@ -180,6 +193,16 @@ def gen_cases(col, kind, ents, tier):
             for op in ('eq', 'ne', 'gt', 'ge', 'lt', 'le'):
                 for sp in OPSETS[op][:2]:
                     yield ("%s %s '%s'" % (col, sp, fmt_date(lit)), (lambda e, op=op, lit=lit: num_cmp(op, e[col], lit)), 'date')
+        # literals at day / hour / minute precision denote intervals (C13 decides the details)
+        import time as _t
+        for v in vals:
+            for fmt_, span in (('%Y-%m-%d', 86400), ('%Y-%m-%d %H', 3600), ('%Y-%m-%d %H:%M', 60)):
+                a = v - v % span
+                b = a + span - 1
+                lit = _t.strftime(fmt_, _t.gmtime(v))
+                for op, f in (('=', lambda t, a, b: a <= t <= b), ('!=', lambda t, a, b: not a <= t <= b), ('>', lambda t, a, b: t > b),
+                              ('>=', lambda t, a, b: t >= a), ('<', lambda t, a, b: t < a), ('<=', lambda t, a, b: t <= b)):
+                    yield ("%s %s '%s'" % (col, op, lit), (lambda e, f=f, a=a, b=b: f(e[col], a, b)), 'date-interval')
         for a, b in zip(lits, lits[3:]):
             yield ("%s between '%s' and '%s'" % (col, fmt_date(a), fmt_date(b)), (lambda e, a=a, b=b: a <= e[col] <= b), 'date-between')
     elif kind == 'colcol':
